@@ -279,6 +279,19 @@ func (s *atpServerSession) handleSignalMessage(runID string, signalMessage Signa
 	}
 	s.wg.Add(1) // Wait until the signal handler is done
 	go func() {
+		defer s.wg.Done()
+		defer func() {
+			// Handle and properly report panics, like the step runner does.
+			if r := recover(); r != nil {
+				s.workDone <- ServerError{
+					RunID: runID,
+					Err: fmt.Errorf("panic while running signal ID %s for run ID '%s': (%v)",
+						signalMessage.SignalID, runID, r),
+					StepFatal:   false,
+					ServerFatal: false,
+				}
+			}
+		}()
 		if err := s.pluginSchema.CallSignal(
 			s.ctx,
 			runID,
@@ -294,7 +307,6 @@ func (s *atpServerSession) handleSignalMessage(runID string, signalMessage Signa
 				ServerFatal: false,
 			}
 		}
-		s.wg.Done()
 	}()
 }
 
